@@ -205,7 +205,7 @@ CLAIMED = {
         "destination with another parent without touching anything; a directory rename keeps identity, kind, content "
         "and relative position of everything beneath it and leaves everything else in place. Symlinked components and "
         "input-directory spellings (relative, absolute, via symlink, ./..) are covered by instrumented real runs in an "
-        "enclosing sandbox with decoys; primitives, final trees and exit codes are compared with the model where modelled. Run level, for every renamer and mode (C06Checked.lean): an observer records before each renamer call whether its destination is contained in the very state the call acts on; it is transparent (withLog_transparent) and, unless override is chosen, every entry is true (every_call_checked): generated paths, retried deferred renames (checked again on the tree as it is then) and custom paths alike.",
+        "enclosing sandbox with decoys; primitives, final trees and exit codes are compared with the model where modelled. Run level, for every renamer and mode (C06Checked.lean): an observer records before each renamer call whether its destination is contained in the very state the call acts on; it is transparent (withLog_transparent) and, unless override is chosen, every entry is true (every_call_checked): generated paths, retried deferred renames (checked again on the tree as it is then) and custom paths alike; dotdot_after_missing_refused (C06Dotdot.lean): m/../../x is outside the input directory whether or not m exists yet.",
         "Trusted: Lean kernel; Path.resolve()/kernel resolution through symlinks (correspondence only); a custom path at "
         "the prompt is user-chosen (only the name-mode parent rule applies).",
         "DESIGN.md §7 C06",
